@@ -299,6 +299,14 @@ SPECS += [
     operator('__rshift__', 'successors', 'src_set_successors', 'src_op_rshift'),
 ]
 
+# ---- the setter of Task.estimate (the amount of a task in the graph model: an integer or None) ------------------------------
+SPECS += [
+    dict(file='task.py', cls='Task', func='estimate', decorator='estimate.setter', coq_name='src_set_estimate', heap='h', state='h',
+         obj_attrs=dict(ATTRS_W2, __estimate=('est', ('option', 'Z'))), obj_writes=dict(WRITES2, __estimate='with_est'),
+         params={'self': ('self', 'obj'), 'value': ('value', ('option', 'Z')), 'h': ('h', 'heap')},
+         signature=[('h', 'heap'), ('self', 'obj'), ('value', ('option', 'Z'))], ret='unit'),
+]
+
 # ---- WBS.__getitem__ (wbs.py): wbs[id] - the first member with that id in WBS order, RuntimeError when there is none ----
 SPECS += [
     dict(file='wbs.py', cls='WBS', func='__getitem__', coq_name='src_wbs_getitem', heap='h', obj_attrs=ATTRS_ID,
